@@ -312,6 +312,12 @@ func (e *Env) ident(name string) Term {
 		if v := fr.localByName(name, e.at); v != nil {
 			return fr.val(v)
 		}
+		if e.at != nil {
+			// not defined on every path to this point: use its (unique) definition elsewhere; clauses guard such uses
+			if v := fr.localByName(name, nil); v != nil {
+				return fr.val(v)
+			}
+		}
 	}
 	// package-level objects
 	if e.pkg != nil {
